@@ -24,12 +24,21 @@ pub fn run_with(sc: &Scenario, progs0: Progs, reduced: bool) -> String {
     let mut nlog = 0usize;
     let mut phase = 0;
     let mut mc_lines: Vec<String> = vec![];
+    // LATEMC: the checker is created at CONTINUE but run only after the rest of the simulation script; the output
+    // is assembled in the usual order, so that it can be compared line by line with the run in the usual order
+    let late = sc.lines.iter().any(|l| l == "LATEMC");
+    let mut deferred: Option<(ModelChecker, Vec<String>, (u64, u64))> = None;
+    let mut post = String::new();
+    let mut panicked = false;
     for (i, line) in sc.lines.iter().enumerate() {
         let idx = i + 1;
         let mut t = Toks::new(line);
         let kw = t.tok();
         if kw == "SNAPSHOT" {
             phase = 1;
+            continue;
+        }
+        if kw == "LATEMC" || kw == "PYOWN" {
             continue;
         }
         if kw == "RAISE" {
@@ -76,6 +85,11 @@ pub fn run_with(sc: &Scenario, progs0: Progs, reduced: bool) -> String {
                     let loc: std::collections::HashMap<String, String> = s.network().proc_locations().clone();
                     let node_of = |p: u64| loc.get(&pname(p)).map(|n| num(n)).unwrap_or(0);
                     let rest: Vec<String> = mc_lines.iter().filter(|l| !l.starts_with("CLOCK")).cloned().collect();
+                    if late {
+                        deferred = Some((mc, rest, (node_of(0), node_of(1))));
+                        phase = 2;
+                        continue;
+                    }
                     out.push_str(&crate::mc::run_lines(&rest, Some(mc), Some((node_of(0), node_of(1)))));
                     if reduced {
                         // copies made for model checking share nothing with the originals
@@ -100,6 +114,7 @@ pub fn run_with(sc: &Scenario, progs0: Progs, reduced: bool) -> String {
             "DRAWS" => {}
             "OP" => {
                 let op = t.tok();
+                let out: &mut String = if deferred.is_some() { &mut post } else { &mut out };
                 writeln!(out, "OP {} {}", idx, op).unwrap();
                 if sys.is_none() {
                     sys = Some(System::new(seed));
@@ -110,7 +125,8 @@ pub fn run_with(sc: &Scenario, progs0: Progs, reduced: bool) -> String {
                 match r {
                     Err(_) => {
                         writeln!(out, "PANIC").unwrap();
-                        return out;
+                        panicked = true;
+                        break;
                     }
                     Ok(ret) => {
                         writeln!(out, "{}", ret).unwrap();
@@ -137,6 +153,20 @@ pub fn run_with(sc: &Scenario, progs0: Progs, reduced: bool) -> String {
             }
             s => panic!("bad HANDOFF line {}", s),
         }
+    }
+    if let Some((mc, rest, nodes)) = deferred.take() {
+        let s = sys.as_ref().unwrap();
+        let src_before: Vec<String> = if reduced { source_states(s) } else { vec![] };
+        out.push_str(&crate::mc::run_lines(&rest, Some(mc), Some(nodes)));
+        if reduced {
+            let same = source_states(s) == src_before;
+            writeln!(out, "SRCSTATE {}", if same { "same" } else { "CHANGED" }).unwrap();
+        }
+        out.push_str(&post);
+    }
+    if panicked {
+        crate::mc::REDUCED.with(|c| c.set(false));
+        return out;
     }
     if reduced {
         if let Some(s) = sys.as_ref() {
@@ -187,7 +217,8 @@ pub fn run_twins(sc: &Scenario) -> String {
     out.push_str(&run_with(sc, pr, true));
     let mut pp = Progs::new();
     let path = concat!(env!("CARGO_MANIFEST_DIR"), "/py/script_proc.py");
-    pp.python = Some(std::rc::Rc::new(anysystem::python::PyProcessFactory::new(path, "ScriptProc")));
+    let class = if sc.lines.iter().any(|l| l == "PYOWN") { "ScriptProcOwn" } else { "ScriptProc" };
+    pp.python = Some(std::rc::Rc::new(anysystem::python::PyProcessFactory::new(path, class)));
     out.push_str("TWIN python\n");
     let r = std::panic::catch_unwind(std::panic::AssertUnwindSafe(|| run_with(sc, pp, true)));
     match r {
